@@ -86,6 +86,15 @@ fn gen_indic_model(rng: &mut Rng) -> Model {
     }
     // same surfaces, outlines with a redundant vertex or another start corner
     crate::gen::model::vary_outlines(rng, &mut m, 0.1);
+    // stale adjacent-space references on elements that are not partitions (left over when a partition becomes a facade)
+    let space_ids: Vec<Uuid> = m.spaces.iter().map(|s| s.id).collect();
+    if !space_ids.is_empty() {
+        for w in m.walls.iter_mut() {
+            if w.bounds != BoundaryType::INTERIOR && w.next_to.is_none() && rng.chance(0.05) {
+                w.next_to = Some(space_ids[rng.usize(space_ids.len())]);
+            }
+        }
+    }
     m
 }
 
